@@ -22,6 +22,10 @@ func init() {
 				Run: ruleDequeResize},
 			{ID: "C04.step-direction", Floor: 4, Clause: "the moving end steps the right way: front-1 in PushFront, front+1 in PopFront, back+1 in PushBack, back-1 in PopBack (before reduction)",
 				Run: ruleDequeStepDirection},
+			{ID: "C04.canonical-empty", Floor: 3, Clause: "the deque has ONE allocated-but-empty encoding, front == 0 and back == -1 (PushBack/PushFront/Len rely on it): on every path of every function that stores the constant -1 into back, the constant 0 is stored into front too",
+				Run: ruleDequeCanonicalEmpty},
+			{ID: "C04.guard-tests-argument", Floor: 3, Clause: "the panic guards of Shrink, Item and Set compare the argument itself (n < 0; i < 0, i >= Len()), not a value computed from it: `Len()+n < 0` lets Shrink(-1) through on a non-empty deque",
+				Run: ruleDequeGuardTestsArgument},
 			{ID: "C04.expand-floor", Floor: 2, Clause: "maybeExpand runs before every push and, when the buffer is full (Len() == len(d.a), which includes the empty buffer), resizes to at least a positive constant: len(d.a) > 0 afterwards (the invariant every modulo in the package relies on)",
 				Run: ruleDequeExpandFloor},
 		},
@@ -701,3 +705,165 @@ var _ = late(func() {
 			}
 		}})
 })
+
+// C04.canonical-empty.
+func ruleDequeCanonicalEmpty(c *Ctx, r *R) {
+	n := 0
+	for _, fn := range c.funcsOfPkg("container/deque") {
+		if fn.Blocks == nil {
+			continue
+		}
+		setsBackNeg := false
+		isEndStore := func(in ssa.Instruction, end string, k int64) bool {
+			st, ok := in.(*ssa.Store)
+			if !ok {
+				return false
+			}
+			fa, ok := st.Addr.(*ssa.FieldAddr)
+			if !ok || !isNamedType(fa.X.Type(), "container/deque", "Deque") || fieldName(fa.X.Type(), fa.Field) != end {
+				return false
+			}
+			if _, fresh := fa.X.(*ssa.Alloc); fresh {
+				return false
+			}
+			return isConstInt(resolveVal(st.Val), k)
+		}
+		instrs(fn, func(_ *ssa.BasicBlock, _ int, in ssa.Instruction) {
+			if isEndStore(in, "back", -1) {
+				setsBackNeg = true
+			}
+		})
+		if !setsBackNeg {
+			continue
+		}
+		n++
+		// bit 0: back = -1 stored on this path; bit 1: front = 0 stored on this path
+		pf := &PF{N: 4}
+		pf.Instr = func(f *ssa.Function, in ssa.Instruction, q int) (StateSet, bool) {
+			if isEndStore(in, "back", -1) {
+				return ss(q | 1), true
+			}
+			if isEndStore(in, "front", 0) {
+				return ss(q | 2), true
+			}
+			// any other store to either end starts over
+			if st, ok := in.(*ssa.Store); ok {
+				if fa, ok := st.Addr.(*ssa.FieldAddr); ok && isNamedType(fa.X.Type(), "container/deque", "Deque") {
+					switch fieldName(fa.X.Type(), fa.Field) {
+					case "back":
+						return ss(q &^ 1), true
+					case "front":
+						return ss(q &^ 2), true
+					}
+				}
+			}
+			return 0, false
+		}
+		good := true
+		var bad *ssa.Return
+		for _, e := range pf.Exits(fn, ss(0)) {
+			e.States.each(func(q int) {
+				if q&1 != 0 && q&2 == 0 {
+					good = false
+					bad = e.Ret
+				}
+			})
+		}
+		pos := fn.Pos()
+		if bad != nil {
+			pos = retPos(bad)
+		}
+		r.ok(good, c.nameOf(fn)+"|empty-is-front0-back-1", pos, "a path marks the deque empty (back = -1) without resetting front to 0: the next PushBack lands on slot 0 while front still points elsewhere, so Len() counts cleared slots as elements")
+	}
+	if n == 0 {
+		r.undecided("container/deque|empty-marker", token.NoPos, "no function stores the empty marker back = -1")
+	}
+}
+
+// C04.guard-tests-argument.
+func ruleDequeGuardTestsArgument(c *Ctx, r *R) {
+	for _, name := range []string{"Shrink", "Item", "Set"} {
+		fn := dq(c, name)
+		if fn == nil {
+			r.undecided("deque.Deque."+name+"|missing", token.NoPos, "anchor not found")
+			continue
+		}
+		if len(fn.Params) < 2 {
+			continue
+		}
+		arg := fn.Params[1]
+		// every comparison that leads (directly) into a panic block and mentions the argument must have the argument itself
+		// as an operand; and at least one such comparison `arg < 0` exists
+		negTest := false
+		good := true
+		var badPos token.Pos
+		for _, b := range fn.Blocks {
+			if len(b.Instrs) == 0 {
+				continue
+			}
+			if _, isPanic := b.Instrs[len(b.Instrs)-1].(*ssa.Panic); !isPanic {
+				continue
+			}
+			// the disjuncts of the guard: one branch per predecessor of the panic block (`i < 0 || i >= Len()`)
+			var gs []guard
+			for _, pb := range b.Preds {
+				if iff, ok := pb.Instrs[len(pb.Instrs)-1].(*ssa.If); ok {
+					gs = append(gs, expandGuard(guard{cond: iff.Cond, val: pb.Succs[0] == b, blk: pb}, 0)...)
+				}
+			}
+			for _, g := range gs {
+				cf, ok := g.asCmp()
+				if !ok {
+					continue
+				}
+				for _, side := range [][2]ssa.Value{{cf.x, cf.y}, {cf.y, cf.x}} {
+					op := cf.op
+					if side[0] == cf.y {
+						op = flip(op)
+					}
+					v := resolveVal(side[0])
+					if v == ssa.Value(arg) {
+						if (op == token.LSS && isConstInt(side[1], 0)) || (op == token.LEQ && isConstInt(side[1], -1)) {
+							negTest = true
+						}
+						continue
+					}
+					if _, isParam := v.(*ssa.Parameter); isParam {
+						continue
+					}
+					// an operand computed from the argument
+					if bin, ok := v.(*ssa.BinOp); ok && dependsOnValue(bin, arg, 0) {
+						good = false
+						badPos = bin.Pos()
+					}
+				}
+			}
+		}
+		pos := fn.Pos()
+		if badPos.IsValid() {
+			pos = badPos
+		}
+		r.ok(good && negTest, "deque.Deque."+name+"|guard-tests-argument", pos, name+" must panic for every negative argument: its guard has to test "+pname(arg)+" < 0 on the argument itself, not on a value computed from it")
+	}
+}
+
+func dependsOnValue(v ssa.Value, target ssa.Value, d int) bool {
+	if d > 6 {
+		return false
+	}
+	v = resolveVal(v)
+	if v == target {
+		return true
+	}
+	switch x := v.(type) {
+	case *ssa.BinOp:
+		return dependsOnValue(x.X, target, d+1) || dependsOnValue(x.Y, target, d+1)
+	case *ssa.UnOp:
+		if x.Op != token.MUL {
+			return dependsOnValue(x.X, target, d+1)
+		}
+	case *ssa.Convert:
+		return dependsOnValue(x.X, target, d+1)
+	}
+	return false
+}
